@@ -194,7 +194,7 @@ func init() {
 			}
 			// timeouts, retries and late answers inside a sequence (the next action must still wait for a real success)
 			for _, sc := range FamilyRetry(tier) {
-				if strings.HasPrefix(sc.Name, "retry-seq-r1") || strings.HasPrefix(sc.Name, "retry-seq-r2") {
+				if strings.HasPrefix(sc.Name, "retry-seq-r") || strings.HasPrefix(sc.Name, "retry-chk-r0") || strings.HasPrefix(sc.Name, "retry-chk-r1") {
 					items = append(items, exploreCap("C01", sc, b+2, false, 60))
 				}
 			}
